@@ -114,6 +114,13 @@ def write_ruleset(path, spec):
     for name, items in spec.get('terminals', {}).items():
         cat, num = name[0], name[1:]
         fn = f"{num}.txt"
+        decoy = spec.get('decoy_files', {}).get(name)
+        if decoy:
+            # a second file that maps to the same variable (the name is the file name up to its first dot), listed first: the file
+            # listed last is the one that counts
+            dfn = f"{num}.old.txt"
+            files[cat].append(dfn)
+            write_lines(os.path.join(path, FOLDER[cat], dfn), [f"{v}\t{p}" for v, p in decoy], enc)
         files[cat].append(fn)
         write_lines(os.path.join(path, FOLDER[cat], fn), [f"{v}\t{p}" for v, p in items], enc, final_newline=name not in nf)
     for cat in FOLDER:
